@@ -409,10 +409,22 @@ fn small(rng: &mut Rng, p: u128) -> u128 {
 /// construction.  `max_log` bounds the trace length; `rich` enables periodic columns, aux segment,
 /// higher degrees, several exemptions and all assertion kinds.
 pub fn gen_instance(rng: &mut Rng, p: u128, max_log: u64, rich: bool) -> Instance {
-    let n = 1usize << rng.range(3, max_log);
+    let long = rich && rng.chance(1, 4);
+    gen_instance_shaped(rng, p, 3, max_log, rich, long)
+}
+
+/// as `gen_instance` with the trace length drawn from 2^min_log..=2^max_log; `long_cycles` allows
+/// periodic columns with cycle lengths up to the trace length (and guarantees one periodic column)
+pub fn gen_instance_shaped(rng: &mut Rng, p: u128, min_log: u64, max_log: u64, rich: bool, long_cycles: bool) -> Instance {
+    let n = 1usize << rng.range(min_log, max_log);
     let width = if rich { *rng.pick(&[1usize, 2, 3, 4, 7, 8, 9]) } else { rng.range(1, 3) as usize };
-    let nper = if rich { rng.below(3) as usize } else { 0 };
-    let periodic: Vec<Vec<u128>> = (0..nper).map(|_| { let len = 1usize << rng.range(1, (n.trailing_zeros() as u64).min(4)); (0..len).map(|_| small(rng, p)).collect() }).collect();
+    let nper = if long_cycles { rng.range(1, 2) as usize } else if rich { rng.below(3) as usize } else { 0 };
+    let periodic: Vec<Vec<u128>> = (0..nper).map(|_| {
+        let logn = n.trailing_zeros() as u64;
+        let cap = if long_cycles && rng.chance(2, 3) { logn } else { logn.min(4) };
+        let len = 1usize << (if long_cycles && rng.chance(1, 3) { cap } else { rng.range(1, cap) });
+        (0..len).map(|_| small(rng, p)).collect()
+    }).collect();
     let mut gen = Vec::new();
     let mut trans = Vec::new();
     // column 0 may be a constant column (supports periodic assertions)
@@ -428,7 +440,7 @@ pub fn gen_instance(rng: &mut Rng, p: u128, max_log: u64, rich: bool) -> Instanc
         let mut top = Ex::Cur(rng.below(width as u64) as usize);
         for _ in 1..deg { top = Ex::Mul(Box::new(top), Box::new(Ex::Cur(rng.below(width as u64) as usize))); }
         let mut cycles = vec![];
-        if nper > 0 && rng.chance(1, 2) {
+        if nper > 0 && (rng.chance(1, 2) || (long_cycles && c + 1 == width)) {
             let k = rng.below(nper as u64) as usize;
             cycles.push(periodic[k].len());
             top = Ex::Mul(Box::new(top), Box::new(Ex::Per(k)));
